@@ -222,6 +222,11 @@ def run_unit(unit):
         ctx.unsupported('unit', 'unsupported: %s' % e)
     except ip.PyRaise as e:
         ctx.unsupported('unit', 'uncaught interpreted exception %r %r' % (e.exc, getattr(e.exc, 'fields', {}).get('args')))
+    except EngineError as e:
+        if 'path enumeration exceeded' in str(e):
+            ctx.unsupported('unit', 'undecided: %s' % e)
+        else:
+            err = traceback.format_exc()
     except Exception as e:
         if timed_out[0]:
             # the alarm fired inside a native (z3 / ctypes) call and surfaced as another exception type
